@@ -13,7 +13,7 @@ import os
 import signal
 import sys
 
-REPO_SRC = os.path.realpath("/repo/src/dendropy")
+REPO_SRC = os.path.join(os.path.realpath(os.environ.get("VERIF_DENDROPY_SRC") or "/repo/src"), "dendropy")
 
 
 class BudgetExceeded(BaseException):
